@@ -341,6 +341,9 @@ def pick_entities(R, ents, limit):
     if limit is None or len(cand) <= limit:
         return cand
     must = [x for x in cand if x.finding or any(o.site for o in x.occs)]
+    cross = [x for x in cand if getattr(x, "cross", False) and x not in must and len(set(o.file for o in x.occs)) > 1]
+    R.shuffle(cross)
+    must += cross[:3]
     cand = [x for x in cand if x not in must]
     by = {}
     for x in cand:
